@@ -102,10 +102,10 @@ class IrfMultiGaussian(Irf):
         return centers, widths, scales, shift, backsweep, backsweep_period
 
     def calculate(self, index: int, global_axis: np.ndarray, model_axis: np.ndarray) -> np.ndarray:
-        centers, widths, scales, _, _, _ = self.parameter(index, global_axis)
+        centers, widths, scales, shift, _, _ = self.parameter(index, global_axis)
         return sum(
             scale * np.exp(-1 * (model_axis - center) ** 2 / (2 * width**2))
-            for center, width, scale in zip(centers, widths, scales)
+            for center, width, scale in zip(centers - shift, widths, scales)
         )
 
     def is_index_dependent(self):
